@@ -73,7 +73,10 @@ func tlaSchema(a *aspec.ASpec, s aspec.Schema, depth int) map[string]any {
 		case "schema":
 			addl = map[string]any{"k": "schema", "s": tlaSchema(a, *s.Addl, depth+1)}
 		}
-		return map[string]any{"k": "object", "nullable": s.Nullable, "props": props, "addl": addl}
+		// inlineAddl: the value schema of additionalProperties is declared inline as an object / allOf / oneOf
+		// (selector of a known finding)
+		inlineAddl := s.AddlK == "schema" && s.Addl != nil && (s.Addl.K == "object" || s.Addl.K == "allOf" || s.Addl.K == "oneOf")
+		return map[string]any{"k": "object", "nullable": s.Nullable, "props": props, "addl": addl, "inlineAddl": inlineAddl}
 	case "allOf":
 		props := []any{}
 		addl := map[string]any{"k": "none", "s": map[string]any{"k": "any", "nullable": false}}
@@ -86,7 +89,7 @@ func tlaSchema(a *aspec.ASpec, s aspec.Schema, depth int) map[string]any {
 				addl = ad
 			}
 		}
-		return map[string]any{"k": "object", "nullable": s.Nullable, "props": props, "addl": addl} // (nullable next to allOf: the wrapper's own)
+		return map[string]any{"k": "object", "nullable": s.Nullable, "props": props, "addl": addl, "inlineAddl": false} // (nullable next to allOf: the wrapper's own)
 	case "oneOf":
 		of := []any{}
 		tags := []any{}
